@@ -116,3 +116,13 @@ func getSetCommandOptions(clock clock.Clock, cmd []string, options SetOptions) (
 		return SetOptions{}, fmt.Errorf("unknown option %s for set command", strings.ToUpper(cmd[0]))
 	}
 }
+
+// isScalarValue reports whether a stored value is one that GET and friends can return
+// (a string, integer or float), as opposed to a list, hash, set or sorted set.
+func isScalarValue(value interface{}) bool {
+	switch value.(type) {
+	case string, int, int64, float64:
+		return true
+	}
+	return false
+}
